@@ -38,9 +38,9 @@ theorem count_pair_cons (l : List (Nat × Nat)) (q x q' t : Nat) :
       intro h'; apply h; simp only [Prod.mk.injEq] at h'; exact ⟨h'.1.symm, h'.2.symm⟩
     simp [ind, h, this]
 
-theorem logs_dispatch (th : Thread) (c : Cmd) :
-    (dispatch th c).popLog = th.popLog ∧ (dispatch th c).addLog = th.addLog := by
-  cases c <;> simp only [dispatch, ret] <;> (try split) <;> simp
+theorem logs_dispatch (cfg : Cfg) (th : Thread) (c : Cmd) :
+    (dispatch cfg th c).popLog = th.popLog ∧ (dispatch cfg th c).addLog = th.addLog := by
+  cases c <;> simp only [dispatch, ret] <;> (repeat' split) <;> simp
 
 theorem exec_queue (cfg : Cfg) (m : Mem) (th : Thread) (q x : Nat) :
     ((exec cfg m th).1.items q).count x + cntPop q x (exec cfg m th).2 + cntAdd q x th
@@ -52,14 +52,14 @@ theorem exec_queue (cfg : Cfg) (m : Mem) (th : Thread) (q x : Nat) :
     split
     · simp
     · rename_i c0 rest hp
-      have := logs_dispatch { th with pc := .idle, prog := rest } c0
+      have := logs_dispatch cfg { th with pc := .idle, prog := rest } c0
       simp only [cntPop, cntAdd, this.1, this.2]
   case getTotal j r => cases r <;> simp [cntPop, cntAdd, getDone, ret]
   case tlStart c t => cases c <;> simp only <;> (repeat' split) <;> simp [cntPop, cntAdd, ret, tlSucc, tlFail]
   case tl0 c t => cases c <;> simp only <;> (repeat' split) <;> simp [cntPop, cntAdd, ret, tlSucc, tlFail]
   case tl1 c t => cases c <;> simp only <;> (repeat' split) <;> simp [cntPop, cntAdd, ret, tlSucc, tlFail]
   case tlBack c t => cases c <;> simp only <;> (repeat' split) <;> simp [cntPop, cntAdd, ret, tlSucc, tlFail]
-  case addBody q' t =>
+  case addBody q' t k =>
     simp only [cntPop, cntAdd, count_pair_cons, upd_apply]
     split
     · rename_i h; subst h
@@ -144,7 +144,7 @@ theorem exec_items_frame (cfg : Cfg) (m : Mem) (th : Thread) (q : Nat)
     (h : pcHoldL cfg th.pc (.queue q) = 0) : (exec cfg m th).1.items q = m.items q := by
   unfold exec
   cases hpc : th.pc
-  case addBody q' t =>
+  case addBody q' t k =>
     simp only [hpc, pcHoldL, ind] at h
     have : q ≠ q' := by intro e; subst e; simp at h
     simp [upd_apply, this]
@@ -158,9 +158,9 @@ theorem exec_items_frame (cfg : Cfg) (m : Mem) (th : Thread) (q : Nat)
     | (simp only; done)
     | (simp only; (repeat' split) <;> rfl)
 
-theorem ref_dispatch (th : Thread) (c : Cmd) :
-    pcQueueRef (dispatch th c).pc = none ∧ ∀ q x, (dispatch th c).pc ≠ .popUnlock q (some x) := by
-  cases c <;> simp only [dispatch, ret] <;> (try split) <;> simp [pcQueueRef]
+theorem ref_dispatch (cfg : Cfg) (th : Thread) (c : Cmd) :
+    pcQueueRef (dispatch cfg th c).pc = none ∧ ∀ q x, (dispatch cfg th c).pc ≠ .popUnlock q (some x) := by
+  cases c <;> simp only [dispatch, ret] <;> (repeat' split) <;> simp [pcQueueRef]
 
 theorem exec_refOk (cfg : Cfg) (m : Mem) (th : Thread) (h : RefOk m th) :
     RefOk (exec cfg m th).1 (exec cfg m th).2 ∧ (RetOk th → RetOk (exec cfg m th).2) := by
@@ -171,7 +171,7 @@ theorem exec_refOk (cfg : Cfg) (m : Mem) (th : Thread) (h : RefOk m th) :
     split
     · exact ⟨h, id⟩
     · rename_i c0 rest hp
-      have := ref_dispatch { th with pc := .idle, prog := rest } c0
+      have := ref_dispatch cfg { th with pc := .idle, prog := rest } c0
       unfold RefOk RetOk
       simp only [this.1]
       refine ⟨by simp, fun _ q x hx => absurd hx (this.2 q x)⟩
